@@ -75,8 +75,11 @@ def cut_item(src, header_re):
     return src[m.start():e], line_no, m.start()
 
 
-def cut_fn(impl_text, name):
-    m = re.search(r"^[ \t]*(?:pub(?:\([a-z]+\))?\s+)?(?:const\s+)?fn\s+" + re.escape(name) + r"\b", impl_text, re.M)
+def cut_fn(impl_text, name, raw=False):
+    if raw:
+        m = re.search(r"^[ \t]*(?:pub(?:\([a-z]+\))?\s+)?" + name + r"\b", impl_text, re.M)
+    else:
+        m = re.search(r"^[ \t]*(?:pub(?:\([a-z]+\))?\s+)?(?:const\s+)?fn\s+" + re.escape(name) + r"\b", impl_text, re.M)
     if not m:
         raise LostAnchor(f"fn {name} not found")
     b = impl_text.index("{", m.start())
